@@ -139,9 +139,9 @@ fn sone(ops: Vec<SOp>) -> Step {
 }
 
 fn sock_each() -> Vec<SockCase> {
-    let s = |steps: Vec<Step>| SockCase { cfg: RingCfg::plain(8), ring_connect: true, accept_addr: true, steps };
+    let s = |steps: Vec<Step>| SockCase { cfg: RingCfg::plain(8), ring_connect: true, accept_addr: true, abstract_listener: false, steps };
     let sk = |dom, ty, proto| SOp::Socket { dom, ty, nb: false, ce: true, proto };
-    vec![
+    let mut all = vec![
         s(vec![sone(vec![sk(0, 0, 0)]), sone(vec![sk(0, 1, 0)]), sone(vec![sk(1, 0, 1)]), sone(vec![sk(1, 0, 2)]), sone(vec![sk(0, 0, 3)]), sone(vec![sk(3, 0, 0)]), sone(vec![SOp::Socket { dom: 0, ty: 2, nb: true, ce: false, proto: 0 }])]),
         s(vec![sone(vec![sk(0, 0, 0)]), sone(vec![SOp::Connect { sock: SRef::Slot(2), to: 0 }]), sone(vec![SOp::Accept { inet: false, addr: false, nb: false, ce: false }]), sone(vec![SOp::Sendmsg { sock: SRef::Slot(2), lens: vec![7], fill: 1, pass_fd: false, raw: false, fl: 0 }, SOp::Recvmsg { sock: SRef::Slot(3), lens: vec![16], ctrl: false, dontwait: false, peek: false }])]),
         s(vec![sone(vec![sk(0, 0, 0)]), sone(vec![SOp::Connect { sock: SRef::Slot(2), to: 1 }]), sone(vec![SOp::Connect { sock: SRef::Slot(2), to: 2 }]), sone(vec![SOp::Connect { sock: SRef::Slot(0), to: 0 }]), sone(vec![SOp::Connect { sock: SRef::Bad, to: 0 }]), sone(vec![SOp::Connect { sock: SRef::File, to: 0 }])]),
@@ -175,7 +175,14 @@ fn sock_each() -> Vec<SockCase> {
             sone(vec![SOp::Close { sock: SRef::Slot(1) }, SOp::Close { sock: SRef::Slot(1) }]),
             sone(vec![SOp::PollAdd { sock: SRef::Bad, ev: 1 }]),
         ]),
-    ]
+    ];
+    // the connect and accept cases again with the listeners bound to abstract-namespace names
+    let abstract_: Vec<SockCase> = all[1..5].iter().cloned().map(|mut c| {
+        c.abstract_listener = true;
+        c
+    }).collect();
+    all.extend(abstract_);
+    all
 }
 
 pub fn run(ctx: &Ctx) {
